@@ -13,6 +13,7 @@ def run(ctx):
     satlayer.rule_model_not_truncated(ctx)
     satlayer.rule_reply_is_stdout(ctx)
     litalg.rule_literal_algebra(ctx)
+    satlayer.rule_embedded_backend_translation(ctx)
     ctx.assume("the embedded CaDiCaL solver and the external program decide satisfiability correctly (trusted)")
     ctx.assume("rustc's MIR and resolved callees")
     return (
